@@ -258,6 +258,11 @@ impl TypeResolver {
             strip_module_path(cleaned)
         };
 
+        // A type mapping wins over every built-in rule: "u64": "bigint", "Vec<u8>": "Uint8Array"
+        if self.type_mappings.contains_key(cleaned) {
+            return TypeStructure::Custom(cleaned.to_string());
+        }
+
         // Handle Option<T> -> Optional(T)
         if let Some(inner_type) = self.extract_option_inner_type(cleaned) {
             return TypeStructure::Optional(Box::new(self.parse_type_structure(&inner_type)));
